@@ -131,7 +131,10 @@ def random_units(rnd, L, lattice_period_units=True):
             "lin": [rnd.choice(["km/s", "m/s"]) for _ in range(L - 1)], "slope_t": rnd.choice(["d", "yr"]),
             "pprior": rnd.choice(["d", "oct", "suboct"]), "p0": rnd.choice(["d", "yr", "oct"]),
             "sP": rnd.choice(["d", "yr"]), "sang": rnd.choice(["rad", "deg"]), "ss": rnd.choice(["km/s", "m/s"]),
-            "t_scale": rnd.choice(["tcb", "utc", "tdb"]), "tref_scale": rnd.choice(["tcb", "utc", "tt"])}
+            "t_scale": rnd.choice(["tcb", "utc", "tdb"]), "tref_scale": rnd.choice(["tcb", "utc", "tt"]),
+            # how the prior object is made: parameter by parameter, or through JokerPrior.default(sigma_K0=, P0=, sigma_v=, s=)
+            # whenever the configuration is one that builder can express (default K prior, no cap, zero means of K and v_i)
+            "builder": rnd.choice(["explicit", "default"])}
 
 
 # ----------------------------------------------------------------------------------------------- building real objects
@@ -172,7 +175,39 @@ def build(g, ua, jitter_kind="sampled"):
     r23 = Fraction(*g["r23"])
     P0_days = P_days * {Fraction(4): 8.0, Fraction(1): 1.0, Fraction(1, 4): 0.125}[r23]
     ku = U(ua["kprior"])
+    slot_names = ["v0"] + ["dv0_%d" % j for j in range(1, noff + 1)] + ["v%d" % i for i in range(1, poly)]
+    tu = U(ua["slope_t"])
+
+    def slot_unit(i, name):
+        vu = U(ua["lin"][i])
+        power = int(name[1:]) if name.startswith("v") and not name.startswith("dv") else 0
+        return (vu / tu ** power if power else vu), (kms / u.day ** power if power else kms)
+    via_default = (ua.get("builder") == "default" and g["kkind"] == "default" and g["muK"] == 0 and ua["maxK"] >= 500
+                   and all(g["mu"][i] == 0 for i, nm in enumerate(slot_names) if not nm.startswith("dv")))
+    if via_default:
+        pu = U(ua["pprior"])
+        su = U(ua["ss"])
+        with pm.Model() as model:
+            offs = []
+            sv = []
+            for i, name in enumerate(slot_names):
+                unit, phys = slot_unit(i, name)
+                if name.startswith("dv0"):
+                    offs.append(xu.with_unit(pm.Normal(name, np.float64((g["mu"][i] * phys).to_value(unit)),
+                                                       np.float64((math.sqrt(g["var"][i]) * phys).to_value(unit))), unit))
+                else:
+                    sv.append(np.float64((math.sqrt(g["var"][i]) * phys).to_value(unit)) * unit)
+            if jitter_kind == "sampled":
+                s_arg = xu.with_unit(pm.Uniform("s", np.float64(0.0), np.float64(50000.0)), su)
+            else:
+                s_arg = np.float64((math.sqrt(g["s2"]) * kms).to_value(su)) * su
+            prior = JokerPrior.default(P_min=np.float64((0.01 * u.day).to_value(pu)) * pu, P_max=np.float64((1000.0 * u.day).to_value(pu)) * pu,
+                                       sigma_K0=np.float64((math.sqrt(g["sK0sq"]) * kms).to_value(ku)) * ku,
+                                       P0=np.float64((P0_days * u.day).to_value(U(ua["p0"]))) * U(ua["p0"]),
+                                       sigma_v=sv if len(sv) > 1 else sv[0], s=s_arg, poly_trend=poly, v0_offsets=offs, model=model)
     with pm.Model() as model:
+        if via_default:
+            pass
         pu = U(ua["pprior"])
         P = xu.with_unit(pm.Uniform("P", np.float64(0.01), np.float64(1000.0)), pu)
         e = xu.with_unit(pm.Uniform("e", np.float64(0.0), np.float64(0.99)), u.one)
@@ -207,7 +242,12 @@ def build(g, ua, jitter_kind="sampled"):
                 offs.append(var_)
             else:
                 pars[name] = var_
-        prior = JokerPrior(pars=pars, poly_trend=poly, v0_offsets=offs, model=model)
+        if not via_default:
+            prior = JokerPrior(pars=pars, poly_trend=poly, v0_offsets=offs, model=model)
+    try:
+        prior._verif_via_default = bool(via_default)
+    except Exception:
+        pass
     # ---- the sample row (and a decoy row evaluated first, to expose stale per-sample state)
     def row(Pd, e_, w, m, s_kms):
         smp = JokerSamples(poly_trend=poly, n_offsets=noff)
@@ -257,6 +297,7 @@ def realize(case):
     kms = u.km / u.s
     try:
         data, prior, target, decoy, order, slot_names = build(g, ua, case.get("jitter_kind", "sampled"))
+        events[0]["via_default"] = bool(getattr(prior, "_verif_via_default", False))
     except Exception as ex:
         events.append({"ev": "Kernel", "fam": fam.get("kernel", "C01"), "B": [], "b": [], "finite": False, "llok": False, "apisame": False,
                        "exc": "build: %s: %s" % (type(ex).__name__, str(ex)[:160])})
@@ -467,6 +508,7 @@ def realize_mcmc(case):
           "obsok": False, "freeok": False}
     try:
         data, prior, target, decoy, order, slot_names = build(g, ua, case.get("jitter_kind", "sampled"))
+        events[0]["via_default"] = bool(getattr(prior, "_verif_via_default", False))
         ratio = (1 * kms).to_value(U(ua["data"]))
         pos = {n: r for r, n in enumerate(order)}
         perm = [pos[n] for n in range(N)]
